@@ -29,7 +29,23 @@ XHTML = '''<?xml version="1.0" encoding="UTF-8"?><html xmlns="http://www.w3.org/
 FOREIGN_FORM = '''<?xml version="1.0" encoding="UTF-8"?><html xmlns="http://www.w3.org/1999/xhtml"><head><meta class="seo x" name="d" content="c"/><meta http-equiv="content-language" content="en"/></head><body><form id="f"><x:form xmlns:x="urn:x" id="xf"><input id="i1" type="submit"/><input id="i2" type="radio" name="g"/></x:form><input id="i3" type="submit"/></form><p id="p">t</p></body></html>'''
 META_CLASS = '''<html><head><meta class="seo x" name="description" content="x"><meta accesskey="a b" http-equiv="content-language" content="en"></head><body><p id="p">t</p><form><math><form><annotation-xml encoding="text/html"><input type="submit" id="ms"></annotation-xml></form></math><input type="submit" id="s"></form></body></html>'''
 
+# every multi-valued attribute the parsers store as a list (class, rel, rev, accesskey, headers, accept-charset, dropzone,
+# archive, sizes) on form controls, links, table cells and the elements state pseudo-classes walk over
+LISTY = '''<html class="no-js x"><head><link rel="alternate stylesheet" sizes="16x16 32x32" href="#"><meta class="m n" http-equiv="content-language" content="en"></head>
+<body class="b c"><form class="f g" accept-charset="utf-8 latin1" id="f"><fieldset class="fs x" disabled><legend class="l m"><input class="a b" id="i0"></legend>
+<input class="form-check-input q" type="radio" name="g" id="r1" accesskey="a b"><input class="form-check-input" type="radio" name="g" id="r2" checked></fieldset>
+<input class="c d" type="checkbox" id="c1" accesskey="x y"><input class="s t" type="submit" id="s1"><button class="b1 b2" type="submit" id="b1">x</button>
+<select class="sel x" id="sel" required><optgroup class="og x" disabled><option class="o p" selected>a</option></optgroup></select>
+<textarea class="ta x" dir="auto" placeholder="p" id="ta"></textarea><input class="n m" type="number" min="1" max="5" value="3" id="n1">
+<input class="d e" type="date" min="2000-01-01" value="1999-01-01" id="d1"><progress class="p q" id="pr"></progress><output for="n1 d1" id="o">o</output></form>
+<table><tr><td headers="h1 h2" class="td x" id="td">c</td></tr></table><a class="l k" rel="nofollow noopener" rev="made x" href="#" id="a1">l</a>
+<p class="pp qq" dir="auto" lang="de" id="p1">text<bdi class="bd x">ا</bdi></p><object archive="a.jar b.jar" class="ob x"></object><div dropzone="copy move" class="dz x" contenteditable="true"></div>
+<iframe class="fr x"><html class="ih x"><body class="ib x"><input class="ir x" type="radio" name="g" id="r3"></body></html></iframe></body></html>'''
+
 SPECS = {
+    'listy_hp': (LISTY, 'html.parser'),
+    'listy_lxml': (LISTY, 'lxml'),
+    'listy_h5': (LISTY, 'html5lib'),
     'forms_hp': (FORMS, 'html.parser'),
     'forms_lxml': (FORMS, 'lxml'),
     'forms_h5': (FORMS, 'html5lib'),
